@@ -21,6 +21,8 @@
 // On the dyadic orthographic sub-alphabet everything is exact, the margin is 0 and points on a plane must be reported
 // not visible (open region).
 #include "c16.hpp"
+#include <functional>
+#include <map>
 
 namespace c16 {
 using namespace vf;
@@ -61,7 +63,7 @@ template <class T> static void ftest ()
                     cams.push_back ({r, {x, y, z}, sc, ft});
                 }
     }
-    std::atomic<ll> n_pl (0), n_pt_in (0), n_pt_out (0), n_pt_margin (0), n_pt_on (0), n_sv (0), n_sc (0), n_bv (0), n_bc (0), n_obj_un (0), n_cam (0), n_ftcam (0), n_aniso (0), done (0);
+    std::atomic<ll> n_pl (0), n_pt_in (0), n_pt_out (0), n_pt_margin (0), n_pt_on (0), n_sv (0), n_sc (0), n_bv (0), n_bc (0), n_obj_un (0), n_cam (0), n_ftcam (0), n_aniso (0), n_hb (0), n_hbc (0), n_hbv (0), n_hb_inf (0), n_hb_ovf2 (0), n_hb_half (0), n_hb_un (0), n_hbs (0), done (0);
     std::mutex mm; double w_pl = 0;
     bool ok = parallel_chunks (FS.size (), 1, [&] (uint64_t lo, uint64_t hi, unsigned) {
         for (uint64_t fi = lo; fi < hi; ++fi)
@@ -70,7 +72,7 @@ template <class T> static void ftest ()
             Frustum<T>   fr = F.make<T> ();
             const Ideal  I  = ideal (F);
             const auto   G  = grid (F);
-            ll k_pl = 0, k_in = 0, k_out = 0, k_mg = 0, k_on = 0, k_sv = 0, k_sc = 0, k_bv = 0, k_bc = 0, k_un = 0, k_cam = 0, k_ft = 0, k_aniso = 0; double lw = 0;
+            ll k_pl = 0, k_in = 0, k_out = 0, k_mg = 0, k_on = 0, k_sv = 0, k_sc = 0, k_bv = 0, k_bc = 0, k_un = 0, k_cam = 0, k_ft = 0, k_aniso = 0, k_hb = 0, k_hbc = 0, k_hbv = 0, k_hb_inf = 0, k_hb_ovf2 = 0, k_hb_half = 0, k_hb_un = 0, k_hbs = 0; double lw = 0;
             // per-plane camera-space constants for the margin
             LD Sdef[6], hmin[6]; L3 X0[6];
             for (int i = 0; i < 6; ++i)
@@ -83,6 +85,7 @@ template <class T> static void ftest ()
             // objects: for each face, centres displaced by -+ delta along the face axis from the face centre (taken at mid
             // depth / mid window), sizes delta/2 and 2 delta; plus the centroid with a small and an all-enclosing size
             std::vector<Obj> objs;
+            LD emin_c = 0; // smallest extent of the frustum at mid depth (camera space)
             {
                 LD n = F.n, f = F.f, m = (n + f) / 2, km = F.ortho ? 1 : m / n;
                 LD ex_ = (F.r - F.l) * km, ey = (F.t - F.b) * km, ez = f - n;
@@ -98,6 +101,7 @@ template <class T> static void ftest ()
                             objs.push_back ({fc[i] + ax[i] * (sgn * dl[i]), sz, sz / 4, sz / 2, i}); // flat box (sphere uses hx)
                         }
                 LD emin = std::min (ex_, std::min (ey, ez)), emax = std::max (ex_ * (F.ortho ? 1 : 2), std::max (ey * (F.ortho ? 1 : 2), ez));
+                emin_c = emin;
                 objs.push_back ({I.centre, emin / 8, emin / 8, emin / 8, 6});
                 objs.push_back ({I.centre, 4 * emax, 4 * emax, 4 * emax, 6});
             }
@@ -154,6 +158,16 @@ template <class T> static void ftest ()
             }
             std::vector<char> gin (G.size ());
             std::vector<L3>   gw (G.size ());
+            // failures of the huge-box classes can number millions per run (a defect there hits every frustum / camera pair):
+            // per frustum only the first case of a site is formatted, the rest is counted and reported in bulk (exact count)
+            struct LazySite { ll n = 0; std::string in, want, got; };
+            std::map<std::string, LazySite> lazy;
+            auto lazy_fail = [&] (const std::string& site, const std::function<std::string ()>& mk, const char* want, const char* got) {
+                static std::atomic<int> echoed (0); // replay: the engine echoes every failure to stderr - the first 64 are enough
+                if (R ().replay && echoed++ < 64) { R ().fail (site, mk (), want, got); return; }
+                LazySite& z = lazy[site];
+                if (z.n++ == 0) { z.in = mk (); z.want = want; z.got = got; }
+            };
             for (const Cam& cm : cams)
             {
                 const auto& Rm = RT[cm.rot];
@@ -282,13 +296,108 @@ template <class T> static void ftest ()
                         if (!touching && !must_not_contain) ++k_un;
                     }
                 }
+
+                // ---------------- boxes with bounds at / near the ends of T's range (infinite, half-infinite, slabs, near-max)
+                // World-space boxes whose per-axis (min,max) is one of
+                //   I (-MAX,MAX)   N (-3/4 MAX, 3/4 MAX)   H+ (c, MAX)   H- (-MAX, c)   F (c - delta, c + delta)
+                // with c the world coordinate of the frustum's centre point on that axis and delta = scale * (smallest extent of
+                // the frustum at mid depth) / 8: all 5^3 - 1 combinations with at least one unbounded axis (Box::makeInfinite() is III).
+                // On I and N axes max-min is not representable in T (it rounds to +inf), on H axes min+max is within rounding of
+                // +-MAX - no finite lattice box has either property. Oracle: the SAME corner / margin oracle as for the lattice
+                // boxes above (long double holds +-MAX and every product with it exactly enough: the margins below are >= 16 eps
+                // times the magnitudes involved):
+                //   * completelyContains must be false when some corner is outside a plane by more than twice the margin - a corner
+                //     at +-MAX is about MAX away from a frustum that lies within a few units of the origin;
+                //   * isVisible must be true when the box touches the frustum robustly: the frustum's centre point is inside with
+                //     margin, every plane has a corner behind it by more than twice the margin, and the centre point lies in the box
+                //     with a slack of 8 eps max(|min|,|max|) per axis (the rounding of the box's own centre/extent arithmetic: a
+                //     half-infinite box (c,MAX) is indistinguishable from (0,MAX) in T, so it carries no isVisible demand - counted).
+                {
+                    const T   TM = std::numeric_limits<T>::max (), TN = (T) (TM * (T) 0.75);
+                    const Vec3<T> wcv = toV<T> (fwd (I.centre));
+                    const L3  wc = toL (wcv), wcc = back (wc);
+                    bool cin = true;
+                    { LD mg[6]; margins (wcc, wc, mg); for (int i = 0; i < 6; ++i) if (!(sc * (dot (I.nrm[i], wcc) - I.off[i]) < -2 * mg[i])) cin = false; }
+                    const LD dw = sc * emin_c / 8;
+                    auto judge = [&] (const Vec3<T>& mn, const Vec3<T>& mx, const char* sfx, const std::string& kinds, ll& k_v, ll& k_c, ll& k_u)
+                    {
+                        Box<Vec3<T>> bx (mn, mx);
+                        bool safe_vis = true, must_not_contain = false;
+                        LD qmin[6]; for (int i = 0; i < 6; ++i) qmin[i] = 1e4900L;
+                        LD mgm[6] = {0, 0, 0, 0, 0, 0};
+                        for (int k = 0; k < 8; ++k)
+                        {
+                            L3 kw = {(LD) ((k & 1) ? mx.x : mn.x), (LD) ((k & 2) ? mx.y : mn.y), (LD) ((k & 4) ? mx.z : mn.z)}, kc = back (kw);
+                            LD mg[6]; margins (kc, kw, mg);
+                            for (int i = 0; i < 6; ++i)
+                            {
+                                LD d = sc * (dot (I.nrm[i], kc) - I.off[i]);
+                                qmin[i] = std::min (qmin[i], d); mgm[i] = std::max (mgm[i], mg[i]);
+                                if (d > 2 * mg[i]) must_not_contain = true;
+                            }
+                        }
+                        for (int i = 0; i < 6; ++i) if (!(qmin[i] < -2 * mgm[i])) safe_vis = false;
+                        bool touching = cin && safe_vis;
+                        for (int a = 0; a < 3 && touching; ++a)
+                        {
+                            const LD slack = 8 * e * std::max (fabsl ((LD) mn[a]), fabsl ((LD) mx[a]));
+                            if (!((LD) mn[a] + slack <= wc[a] && wc[a] <= (LD) mx[a] - slack)) touching = false;
+                        }
+                        auto bs = [&] () { return " Box(" + s (mn) + ", " + s (mx) + ") [per-axis kinds " + kinds + ": 0=(-MAX,MAX) 1=(-3/4MAX,3/4MAX) 2=(c,MAX) 3=(-MAX,c) 4=finite 5=(3/4MAX,MAX) 6=(-MAX,-3/4MAX)]"; };
+                        if (touching) { ++k_v; if (!ft.isVisible (bx)) lazy_fail (std::string ("FrustumTest::isVisible(box).touching-object-culled") + sfx, [&] { return in () + bs (); }, "true", "false"); }
+                        if (must_not_contain) { ++k_c; if (ft.completelyContains (bx)) lazy_fail (std::string ("FrustumTest::completelyContains(box).true-with-point-outside") + sfx, [&] { return in () + bs (); }, "false", "true"); }
+                        if (!touching && !must_not_contain) ++k_u;
+                    };
+                    for (int code = 0; code < 125; ++code)
+                    {
+                        int ak[3] = {code % 5, (code / 5) % 5, code / 25};
+                        if (ak[0] == 4 && ak[1] == 4 && ak[2] == 4) continue; // the finite box: the object lattice above
+                        Vec3<T> mn, mx; int n_ovf = 0, n_half = 0, n_inf = 0;
+                        for (int a = 0; a < 3; ++a)
+                            switch (ak[a])
+                            {
+                                case 0: mn[a] = -TM; mx[a] = TM; ++n_ovf; ++n_inf; break;
+                                case 1: mn[a] = -TN; mx[a] = TN; ++n_ovf; break;
+                                case 2: mn[a] = wcv[a]; mx[a] = TM; ++n_half; break;
+                                case 3: mn[a] = -TM; mx[a] = wcv[a]; ++n_half; break;
+                                default: mn[a] = (T) (wc[a] - dw); mx[a] = (T) (wc[a] + dw); break;
+                            }
+                        ++k_hb;
+                        if (n_inf == 3) ++k_hb_inf;
+                        if (n_ovf >= 2) ++k_hb_ovf2;
+                        if (n_half) ++k_hb_half;
+                        judge (mn, mx, ".bounds-at-or-near-max", std::to_string (ak[0]) + std::to_string (ak[1]) + std::to_string (ak[2]), k_hbv, k_hbc, k_hb_un);
+                    }
+                    // Boxes lying entirely near one end of the range on some axis: per-axis S+ (3/4 MAX, MAX), S- (-MAX, -3/4 MAX) or F,
+                    // at least one S axis (26 boxes). Here min+max is not representable (it rounds to +-inf) while max-min is. Such a
+                    // box is about 3/4 MAX away from the frustum: it has a point outside (every point is), so completelyContains must
+                    // be false; it touches nothing, so isVisible carries no demand (the centre is not in the box). Own site
+                    // ".bounds-sum-overflows".
+                    for (int code = 0; code < 27; ++code)
+                    {
+                        int ak[3] = {code % 3, (code / 3) % 3, code / 9};
+                        if (ak[0] == 2 && ak[1] == 2 && ak[2] == 2) continue;
+                        Vec3<T> mn, mx; std::string kinds;
+                        for (int a = 0; a < 3; ++a)
+                        {
+                            if (ak[a] == 0) { mn[a] = TN; mx[a] = TM; kinds += "5"; }
+                            else if (ak[a] == 1) { mn[a] = -TM; mx[a] = -TN; kinds += "6"; }
+                            else { mn[a] = (T) (wc[a] - dw); mx[a] = (T) (wc[a] + dw); kinds += "4"; }
+                        }
+                        ++k_hb;
+                        ll dummy_v = 0;
+                        judge (mn, mx, ".bounds-sum-overflows", kinds, dummy_v, k_hbs, k_hb_un);
+                    }
+                }
             }
+            for (auto& kv : lazy) R ().fail_n (kv.first, kv.second.n, kv.second.in, kv.second.want, kv.second.got);
+            n_hb += k_hb; n_hbc += k_hbc; n_hbv += k_hbv; n_hb_inf += k_hb_inf; n_hb_ovf2 += k_hb_ovf2; n_hb_half += k_hb_half; n_hb_un += k_hb_un; n_hbs += k_hbs;
             n_pl += k_pl; n_pt_in += k_in; n_pt_out += k_out; n_pt_margin += k_mg; n_pt_on += k_on; n_sv += k_sv; n_sc += k_sc; n_bv += k_bv; n_bc += k_bc; n_obj_un += k_un; n_cam += k_cam; n_ftcam += k_ft; n_aniso += k_aniso;
             ++done;
             std::lock_guard<std::mutex> g (mm); w_pl = std::max (w_pl, lw);
         }
     });
-    ll pts = n_pt_in + n_pt_out + n_pt_margin, objs = n_sv + n_sc + n_bv + n_bc;
+    ll pts = n_pt_in + n_pt_out + n_pt_margin, objs = n_sv + n_sc + n_bv + n_bc + n_hbv + n_hbc + n_hbs;
     R ().add ("states", n_cam + pts + objs); R ().add ("evaluations", n_cam + pts + objs); R ().add ("transitions", n_pl.load () * 2 + pts + objs);
     R ().add ("frustum_camera_pairs", n_cam); R ().add ("frustum_camera_pairs_with_FrustumTest", n_ftcam);
     R ().cls ("planes(M).non-uniformly-scaled-or-sheared-M", n_aniso);
@@ -297,8 +406,14 @@ template <class T> static void ftest ()
     R ().cls ("frustumtest.point-inside", n_pt_in); R ().cls ("frustumtest.point-outside", n_pt_out); R ().cls ("frustumtest.point-exactly-on-plane(exact sub-alphabet)", n_pt_on);
     R ().cls ("frustumtest.sphere-touching", n_sv); R ().cls ("frustumtest.sphere-with-point-outside", n_sc);
     R ().cls ("frustumtest.box-touching", n_bv); R ().cls ("frustumtest.box-with-point-outside", n_bc);
+    R ().add ("boxes_with_bounds_at_or_near_max", n_hb);
+    R ().add (std::string ("boxes_with_bounds_at_or_near_max_without_a_demand.") + tname<T> (), n_hb_un);
+    R ().cls ("frustumtest.huge-box.infinite-on-every-axis(makeInfinite)", n_hb_inf); R ().cls ("frustumtest.huge-box.max-min-overflows-on-two-or-more-axes", n_hb_ovf2);
+    R ().cls ("frustumtest.huge-box.half-infinite-axis", n_hb_half);
+    R ().cls ("frustumtest.huge-box.entirely-near-one-end-of-the-range(min+max overflows; completelyContains must be false)", n_hbs);
+    R ().cls ("frustumtest.huge-box.touching(isVisible demanded)", n_hbv); R ().cls ("frustumtest.huge-box.point-outside(completelyContains must be false)", n_hbc);
     R ().note_max (std::string ("worst planes(M) defining-point residual / (16 eps S), ") + tname<T> (), w_pl);
-    if (ok) R ().stage_done (std::to_string (done.load ()) + " frusta x " + std::to_string (cams.size ()) + " cameras: planes(M); FrustumTest on " + std::to_string (n_ftcam.load ()) + " pairs x (343 points + 50 spheres + 50 boxes)");
+    if (ok) R ().stage_done (std::to_string (done.load ()) + " frusta x " + std::to_string (cams.size ()) + " cameras: planes(M); FrustumTest on " + std::to_string (n_ftcam.load ()) + " pairs x (343 points + 50 spheres + 50 boxes + 124 boxes with per-axis bounds (-MAX,MAX), (-3/4MAX,3/4MAX), (c,MAX), (-MAX,c) or finite + 26 boxes with (3/4MAX,MAX) / (-MAX,-3/4MAX) axes)");
     else R ().stage_partial (std::to_string (done.load ()) + " of " + std::to_string (FS.size ()) + " frusta");
 }
 
